@@ -5,7 +5,7 @@ use cascette_client_storage::index::update::{ENTRIES_PER_PAGE, MIN_UPDATE_SECTIO
 use cascette_client_storage::index::{IndexManager, UpdateStatus};
 use cascette_client_storage::kmt::key_state::{BATCH_DELETE_THRESHOLD, RESIDENCY_ENTRIES_PER_PAGE, ResidencyDb};
 use cascette_crypto::EncodingKey;
-use std::collections::{BTreeMap, BTreeSet, HashMap, HashSet};
+use std::collections::{BTreeSet, HashMap, HashSet};
 use std::panic::AssertUnwindSafe;
 use verif_harness::*;
 
@@ -874,6 +874,5 @@ fn main() {
         run_index(&mut g, &mut rng, args.thorough());
         run_residency(&mut g, &mut rng, args.thorough());
     }
-    let _ = BTreeMap::<u8, u8>::new();
     s.finish();
 }
